@@ -278,3 +278,224 @@ pub fn replay(args: &[String]) -> i32 {
     out.finish();
     0
 }
+
+// ------------------------------------------------------------------------------------------
+// The GP loop of examples/median against spec/gp/PushEvolution.tla (Trace_PushEvolution)
+
+mod evo {
+    use std::cell::RefCell;
+    use std::convert::Infallible;
+    use std::sync::Mutex;
+
+    use ec_core::{
+        distributions::conversion::IntoDistribution,
+        generation::Generation,
+        individual::{ec::EcIndividual, scorer::FnScorer},
+        operator::{
+            genome_extractor::GenomeExtractor, genome_scorer::GenomeScorer, mutator::Mutate,
+            selector::{lexicase::Lexicase, Select},
+            Composable, Operator,
+        },
+        test_results::{self, TestResults},
+    };
+    use ec_linear::mutator::umad::Umad;
+    use push::{
+        evaluation::Cases,
+        genome::plushy::{GeneGenerator, Plushy, PushGene},
+        instruction::PushInstruction,
+        push_vm::program::PushProgram,
+    };
+    use rand::{distr::Distribution, seq::IndexedRandom, Rng};
+    use serde_json::{json, Value};
+
+    use super::{gene_json, score_genome, Inp, SIDE, SMALL_INTS};
+    use crate::proj::{instr_from_json, item_to_json, phi, W};
+    use crate::util::{arg_req, arg_u64, guarded, i, run_rng, Out};
+    use crate::vm::observe_steps;
+
+    type GInd = EcIndividual<Plushy, TestResults<test_results::Error<i128>>>;
+
+    thread_local! {
+        static STAGES: RefCell<Vec<(&'static str, Value)>> = const { RefCell::new(Vec::new()) };
+    }
+    static EVENTS: Mutex<Vec<Value>> = Mutex::new(Vec::new());
+    static POP_ADDRS: Mutex<Vec<usize>> = Mutex::new(Vec::new());
+
+    fn genes_json(p: &Plushy) -> Value {
+        p.get_genes().iter().map(gene_json).collect::<Option<Vec<Value>>>().map_or(Value::Null, Value::Array)
+    }
+
+    trait Show {
+        fn show(&self) -> Value;
+    }
+    impl Show for &GInd {
+        /// which member of the population (1-based; 0 = not an element of it)
+        fn show(&self) -> Value {
+            let a = std::ptr::from_ref::<GInd>(*self) as usize;
+            json!(POP_ADDRS.lock().expect("lock").iter().position(|x| *x == a).map_or(0, |k| k + 1))
+        }
+    }
+    impl Show for Plushy {
+        fn show(&self) -> Value {
+            genes_json(self)
+        }
+    }
+    struct Tap(&'static str);
+    impl Composable for Tap {}
+    impl<T: Show> Operator<T> for Tap {
+        type Output = T;
+        type Error = Infallible;
+        fn apply<R: Rng + ?Sized>(&self, x: T, _: &mut R) -> Result<T, Infallible> {
+            STAGES.with(|s| s.borrow_mut().push((self.0, x.show())));
+            Ok(x)
+        }
+    }
+
+    fn ind_json(ind: &GInd) -> Value {
+        json!({"genes": genes_json(&ind.genome),
+               "results": ind.test_results.results.iter().map(|e| i64::try_from(e.0).unwrap_or(i64::MIN)).collect::<Vec<_>>(),
+               "total": i64::try_from(ind.test_results.total_result.0).unwrap_or(i64::MIN)})
+    }
+
+    /// did a number leave the windows while `program` was scored on `cases`?
+    fn scoring_cut(program: &[PushProgram], cases: &[Value], m: usize, limit: usize, ended: &[(String, &'static str)]) -> (bool, Value) {
+        let Some(pj) = program.iter().map(item_to_json).collect::<Option<Vec<Value>>>() else {
+            return (true, Value::Null);
+        };
+        let max = json!({"exec": m, "int": m, "flt": m, "bool": m});
+        let mut cut = ended.iter().any(|(_, k)| *k == "far");
+        if pj.len() <= m {
+            for c in cases {
+                let sv = json!({"exec": pj, "int": [], "flt": [], "bool": []});
+                if observe_steps(&sv, &max, &c["inputs"], limit).cut {
+                    cut = true;
+                }
+            }
+        }
+        (cut, Value::Array(pj))
+    }
+
+    pub fn trace(args: &[String]) -> i32 {
+        let seed = arg_u64(args, "--seed", 0);
+        let runs = arg_u64(args, "--runs", 50);
+        let first = arg_u64(args, "--first-run", 0);
+        let mut out = Out::create(arg_req(args, "--out"));
+        let candidates: Vec<Value> = vec![
+            json!({"f": "int", "o": "push", "v": 1}), json!({"f": "int", "o": "push", "v": 2}), json!({"f": "int", "o": "push", "v": -3}),
+            json!({"f": "input", "o": "x"}), json!({"f": "input", "o": "X"}), json!({"f": "input", "o": "b"}),
+            json!({"f": "int", "o": "add"}), json!({"f": "int", "o": "subtract"}), json!({"f": "int", "o": "multiply"}),
+            json!({"f": "int", "o": "dup"}), json!({"f": "int", "o": "swap"}), json!({"f": "int", "o": "is_zero"}),
+            json!({"f": "int", "o": "max"}), json!({"f": "int", "o": "min"}), json!({"f": "int", "o": "print"}),
+            json!({"f": "bool", "o": "push", "v": true}), json!({"f": "bool", "o": "not"}), json!({"f": "int", "o": "less_than"}),
+            json!({"f": "exec", "o": "when"}), json!({"f": "exec", "o": "unless"}), json!({"f": "exec", "o": "if_else"}),
+            json!({"f": "exec", "o": "dup_block"}), json!({"f": "exec", "o": "noop"}), json!({"f": "int", "o": "pop"}),
+        ];
+        for run in first..first + runs {
+            let mut rng = run_rng(seed, 0xE69, run);
+            let n = match rng.random_range(0..10) { 0 => 1usize, _ => rng.random_range(2..=6) };
+            let m = if rng.random_range(0..5) == 0 { rng.random_range(1..=5) } else { rng.random_range(6..=20) };
+            let limit = rng.random_range(0..=40usize);
+            let penalty: i128 = [1000, 7][rng.random_range(0..2)];
+            let serial = rng.random_range(0..3) == 0;
+            let threads = [1usize, 2, 4, 8][rng.random_range(0..4)];
+            let steps = rng.random_range(1..=2);
+            let (add, del): ((u32, u32), (u32, u32)) = [((0, 1), (0, 1)), ((0, 1), (1, 2)), ((1, 2), (0, 1)), ((1, 1), (0, 1)),
+                ((3, 10), (3, 10)), ((1, 10), (1, 10)), ((0, 1), (1, 1)), ((1, 1), (1, 2))][rng.random_range(0..8)];
+            let cases_json: Vec<Value> = (0..rng.random_range(0..=3))
+                .map(|_| {
+                    json!({"inputs": {
+                        "x": {"f": "int", "o": "push", "v": phi(*SMALL_INTS.choose(&mut rng).expect("p")).expect("w")},
+                        "b": {"f": "bool", "o": "push", "v": rng.random::<bool>()},
+                        "X": {"f": "int", "o": "push", "v": phi(*SMALL_INTS.choose(&mut rng).expect("p")).expect("w")},
+                    }, "expected": rng.random_range(-5..=5)})
+                })
+                .collect();
+            let k = rng.random_range(2..=10usize);
+            let instrs: Vec<PushInstruction> = candidates.choose_multiple(&mut rng, k).map(instr_from_json).collect();
+            let alphabet: Vec<Value> = std::iter::once(PushGene::Close)
+                .chain(instrs.iter().cloned().map(PushGene::Instruction))
+                .map(|g| gene_json(&g).expect("candidates are representable"))
+                .collect();
+            let dist = IntoDistribution::<PushInstruction>::into_distribution(instrs).expect("non-empty");
+            let generator = if rng.random() { GeneGenerator::with_uniform_close_probability(&dist) } else { GeneGenerator::new(0.3, &dist) };
+            let training: Cases<Inp, i64> = cases_json.iter().map(|c| (Inp(c["inputs"].clone()), i(&c["expected"]))).collect();
+            let scorer = FnScorer(|g: &Plushy| {
+                SIDE.with(|x| x.borrow_mut().clear());
+                let r = score_genome(g, &training, m, limit, penalty);
+                let ended: Vec<(String, &'static str)> = SIDE.with(|x| std::mem::take(&mut *x.borrow_mut()));
+                let program = Vec::<PushProgram>::from(g.clone());
+                let (cut, pj) = scoring_cut(&program, &cases_json, m, limit, &ended);
+                let results: Vec<i64> = r.results.iter().map(|e| i64::try_from(e.0).unwrap_or(i64::MIN)).collect();
+                let cut = cut || results.iter().any(|e| e.abs() > W);
+                let stages: Vec<(&'static str, Value)> = STAGES.with(|s| std::mem::take(&mut *s.borrow_mut()));
+                let mut ev = json!({"ev": "child", "program": pj, "cut": cut, "results": results, "scored_genome": genes_json(g),
+                                    "total": i64::try_from(r.total_result.0).unwrap_or(i64::MIN), "stages": stages.len()});
+                for (name, v) in stages {
+                    ev[name] = v;
+                }
+                EVENTS.lock().expect("lock").push(ev);
+                r
+            });
+            // the initial population: random genomes scored by the same scorer (their events are dropped)
+            let pop: Vec<GInd> = (0..n)
+                .map(|_| loop {
+                    let len = rng.random_range(0..=8);
+                    let g = Plushy::new((0..len).map(|_| generator.sample(&mut rng)));
+                    let r = ec_core::individual::scorer::Scorer::score(&scorer, &g);
+                    // errors outside the small window cannot be compared by the specification
+                    if r.results.iter().all(|e| e.0.abs() <= i128::from(W)) {
+                        break EcIndividual::new(g, r);
+                    }
+                })
+                .collect();
+            EVENTS.lock().expect("lock").clear();
+            STAGES.with(|s| s.borrow_mut().clear());
+            out.line(&json!({"ev": "reset", "run": run, "m": m, "limit": limit, "penalty": penalty as i64, "cases": cases_json,
+                             "alphabet": alphabet, "add": [add.0, add.1], "del": [del.0, del.1],
+                             "mode": if serial { "serial" } else { "par" }, "threads": threads,
+                             "pop": pop.iter().map(ind_json).collect::<Vec<_>>()}));
+            let res = guarded(|| {
+                let umad = Umad::new(f64::from(add.0) / f64::from(add.1), f64::from(del.0) / f64::from(del.1), &generator);
+                let maker = Select::new(Lexicase::new(cases_json.len()))
+                    .then(Tap("parent"))
+                    .then(GenomeExtractor)
+                    .then(Tap("extracted"))
+                    .then(Mutate::new(umad))
+                    .then(Tap("mutated"))
+                    .wrap::<GenomeScorer<_, _>>(&scorer);
+                let pool = rayon::ThreadPoolBuilder::new().num_threads(threads).build().expect("pool");
+                let mut g = Generation::new(maker, pop);
+                let mut lines: Vec<Value> = Vec::new();
+                for _ in 0..steps {
+                    *POP_ADDRS.lock().expect("lock") = g.population().iter().map(|p| std::ptr::from_ref::<GInd>(p) as usize).collect();
+                    EVENTS.lock().expect("lock").clear();
+                    let r = if serial { g.serial_next() } else { pool.install(|| g.par_next()) };
+                    let evs = std::mem::take(&mut *EVENTS.lock().expect("lock"));
+                    if evs.iter().any(|ev| ev["results"].as_array().is_some_and(|rs| rs.iter().any(|e| i(e).abs() > W))) {
+                        lines.push(json!({"ev": "cutrun", "run": run, "why": "an error outside the small window"}));
+                        break;
+                    }
+                    for mut ev in evs {
+                        ev["run"] = json!(run);
+                        lines.push(ev);
+                    }
+                    lines.push(json!({"ev": "return", "run": run, "ok": r.is_ok(), "err": r.err().map_or(String::new(), |e| format!("{e:?}")),
+                                      "pop_after": g.population().iter().map(ind_json).collect::<Vec<_>>()}));
+                }
+                lines
+            });
+            match res {
+                Ok(lines) => {
+                    for ln in lines {
+                        out.line(&ln);
+                    }
+                }
+                Err(msg) => out.line(&json!({"ev": "panic", "run": run, "msg": msg})),
+            }
+        }
+        out.finish();
+        0
+    }
+}
+
+pub use evo::trace as evo_trace;
